@@ -71,3 +71,5 @@ func (*RandReader) Read(p []byte) (int, error) {
 	}
 	return len(p), nil
 }
+
+func SymbolicTime() { panic("vf: engine intrinsic") }
